@@ -825,3 +825,73 @@ Proof.
   - specialize (IH (vedge m rst env st)). rewrite Er in IH. apply IH. assumption.
 Qed.
 
+(* ---- one clock edge with rst high loads every register's reset value ---- *)
+Lemma fold_nb_notin m env r : forall items rg,
+  ~ In r (map fst items) -> fold_left (nb_assign m env) items rg r = rg r.
+Proof.
+  induction items as [|a items IH]; intros rg Hn; simpl; [reflexivity|].
+  rewrite IH by (intro H; apply Hn; right; assumption).
+  unfold nb_assign. apply upd_other. intro Heq. apply Hn. left. symmetry. assumption.
+Qed.
+
+Lemma fold_nb_keyfun m env (G : Z -> vexpr) r : forall items rg,
+  (forall a, In a items -> snd a = G (fst a)) -> In r (map fst items) ->
+  fold_left (nb_assign m env) items rg r = vassign (dwidth m) env r (G r).
+Proof.
+  induction items as [|a items IH]; intros rg HG Hin; [contradiction|]. simpl.
+  destruct (in_dec Z.eq_dec r (map fst items)) as [Hr|Hr].
+  - apply IH; [intros b Hb; apply HG; right; assumption|assumption].
+  - rewrite fold_nb_notin by assumption. destruct Hin as [Heq|Hin]; [|contradiction].
+    unfold nb_assign. rewrite <- Heq, upd_same. rewrite (HG a) by (left; reflexivity). reflexivity.
+Qed.
+
+Theorem reset_loads nl mode m : wfb nl = true -> emitted_ok nl mode m = true -> mode <> RNone ->
+  forall env vst n, In n (nets nl) -> nop n = OpReg ->
+  vregs (vedge m true env vst) (ndest n) = reset_of nl (ndest n) mod 2 ^ width_of nl (ndest n).
+Proof.
+  intros Hwf Hok Hmode env vst n Hn Hop.
+  assert (Hne : expected_updates nl <> []).
+  { unfold expected_updates. intro H.
+    assert (Hin : In n (filter is_regnet (nets nl))).
+    { apply filter_In. split; [assumption|]. unfold is_regnet. rewrite Hop. reflexivity. }
+    apply (in_map (fun n => (ndest n, VId (arg n 0)))) in Hin. rewrite H in Hin. contradiction. }
+  pose proof (checks nl mode m Hok 11) as C11. pose proof (checks nl mode m Hok 13) as C13.
+  cbn [nth emit_checks] in C11, C13. apply items_eqb_eq in C13.
+  assert (Hm : m_mode m = mode).
+  { destruct mode, (m_mode m); try reflexivity; try contradiction;
+    destruct (expected_updates nl); try discriminate C11; contradiction. }
+  cbn [vedge vregs]. unfold reg_block. rewrite Hm.
+  assert (Hres : m_resets m = map (fun n => (ndest n, VDec (reset_of nl (ndest n))))
+                                  (filter is_regnet (nets nl))).
+  { rewrite C13. destruct (expected_updates nl); [contradiction|].
+    unfold expected_resets. destruct mode; [contradiction|reflexivity|reflexivity]. }
+  assert (Hfold : fold_left (nb_assign m env) (m_resets m) (vregs vst) (ndest n)
+                  = vassign (dwidth m) env (ndest n) (VDec (reset_of nl (ndest n)))).
+  { apply (fold_nb_keyfun m env (fun r => VDec (reset_of nl r))).
+    - rewrite Hres. intros a Ha. apply in_map_iff in Ha. destruct Ha as [k [<- _]]. reflexivity.
+    - rewrite Hres, map_map. cbn [fst]. apply in_map. apply filter_In. split; [assumption|].
+      unfold is_regnet. rewrite Hop. reflexivity. }
+  destruct (net_rules nl mode m Hwf Hok n Hn) as [_ [_ Hd]]. rewrite Hop in Hd.
+  assert (Hgoal : vassign (dwidth m) env (ndest n) (VDec (reset_of nl (ndest n)))
+                  = reset_of nl (ndest n) mod 2 ^ width_of nl (ndest n)).
+  { unfold vassign. cbn [veval]. rewrite (dwidth_wire nl mode m Hok _ Hd). reflexivity. }
+  destruct mode; [contradiction| |]; rewrite Hfold; exact Hgoal.
+Qed.
+
+(* ---- end to end: what the search's evaluator returns is the reference trace ---- *)
+Theorem evaluator_refines_spec nl mode m order dflt st inss :
+  wfb nl = true -> emitted_ok nl mode m = true ->
+  legal_regs nl (sregs st) -> Forall (legal_ins nl) inss ->
+  let tr := fst (vrun m order (mkVState (sregs st) (vinit_mems m (smems st)))
+                      (map (fun i => (i, false)) inss)) in
+  forallb (fun eo => snd eo) tr = true ->
+  Forall2 (fun v env => forall x, In x (wires nl) -> env (wname x) = v (wname x))
+          (fst (run nl dflt st inss)) (map fst tr).
+Proof.
+  intros Hwf Hok Hr Hi tr Hall.
+  pose proof (vrun_is_vtrace m order _ _ Hall) as Ht.
+  pose proof (run_refines nl mode m Hwf Hok dflt inss st _ _ (init_related nl mode m Hwf Hok st) Hr Hi Ht) as H.
+  fold tr in H. revert H. generalize (fst (run nl dflt st inss)) (map fst tr).
+  intros l1 l2 HF. induction HF as [|v env l1' l2' Hhd Htl IHF]; constructor; [|assumption].
+  intros w Hw. apply Hhd. assumption.
+Qed.
